@@ -205,6 +205,10 @@ def type_name(v):
     return type(v).__name__
 
 
+class NanKey(Exception):
+    """NaN used as a map key: unspecified (see C14), the model declines."""
+
+
 def key_of(v):
     """Model key for map lookups / identity comparisons."""
     if v is None:
@@ -213,7 +217,7 @@ def key_of(v):
         return ("b", v)
     if isinstance(v, float):
         if v != v:
-            return ("nan", id(object()))  # never equal to anything, itself included
+            raise NanKey()
         return ("n", v + 0.0)  # -0.0 + 0.0 == 0.0
     if isinstance(v, str):
         return ("s", v)
